@@ -385,7 +385,8 @@ WO_Mkdir(WW, WW2, q, r, now) ==
      /\ (q.op # "mkdir" \/ ~s0.present) =>
            /\ s.child.id \notin DOMAIN WW.D \/ s.child.id \in WW2.imm
            /\ (s.child.id \in WW2.imm) = (q.op \in {"mkdiri", "mkdiri_named"})
-           /\ s.child.w = (q.op \notin {"mkdiri", "mkdiri_named"})
+           \* held read-write, unless the link kept "no-write" metadata ("it will cause the link to be diminished to read-only")
+           /\ s.child.w = (q.op \notin {"mkdiri", "mkdiri_named"} /\ ~NoWrite(WW2.D[s.d][s.n].md))
            /\ DOMAIN WW2.D[s.child.id] = {Norm(q.kids[i].name) : i \in 1..Len(q.kids)}
 \* directories appear only on the path of a creating request, each under the name the path gives it, and only
 \* where nothing was; what was on the path stays
